@@ -198,9 +198,33 @@ def run_wire(cfg, counters, violations, samples, distinct):
     ack and ack_bits and every duplicate verdict are compared with the monitor's own acceptance record; the
     class-wide BitField shadow stays on for every window of every connection"""
     from mon.props import c05
+    from mon.engines import adversary as A
     out = {"violations": [], "counters": Counter(), "samples": [], "distinct": set()}
+
+    def corruption(run, r, c):
+        """a damaged copy of a datagram overtakes the intact one; forged headers with a sequence number far ahead.
+        Neither may enter the window: the ack fields must keep naming exactly what was really received."""
+        w = run.world
+
+        def flt(direction, addr, d, info):
+            x = r.random()
+            if x < 0.06 and len(d) > 24:
+                b = bytearray(d)
+                i = r.randrange(20, len(b))
+                b[i] ^= 1 << r.randrange(8)
+                run.c.inc("adv_damaged_copy_first")
+                return ("replace", [(bytes(b), "bitflip"), (d, "honest")])       # same delay: FIFO order keeps the damaged one first
+            if x < 0.08:
+                h = L.parse_header(d)
+                forged = A.header(direction, h[1], (h[2] + r.choice([1, 2, 40, 500])) % 65535 + 1, h[3], h[4], h[5], h[6], h[7]) + d[20:]
+                run.c.inc("adv_forged_future_seq")
+                return ("replace", [(d, "honest"), (forged, "forged:future-seq")])
+            return None
+        w.net.filters.append(flt)
+        return lambda: w.net.filters.remove(flt) if flt in w.net.filters else None
+    from mon.engines import lockstep as L
     n = c05.run_faults({"seed": cfg["seed"], "shard": cfg["shard"], "n": cfg["n"], "tier": cfg["tier"]}, out, props=("C08",), tag="C08",
-                       profiles_pool=["lossy", "dup", "reorder", "hostile", "slow", "acks-lost"])
+                       profiles_pool=["lossy", "dup", "reorder", "hostile", "slow", "acks-lost"], extra=corruption)
     counters.merge(out["counters"])
     violations += out["violations"]
     samples += out["samples"][:1]
@@ -230,7 +254,7 @@ def finish(tier, seed, results):
     inconclusive = []
     need(m["counters"], ["ring_pairs", "ring_random_pairs", "bitfield_insert", "bitfield_dup_raised", "bitfield_window_sweeps",
                          "window_histories_crossing_wrap", "wire_datagrams_checked", "wire_ackbits_nonzero",
-                         "wire_duplicates_presented"], inconclusive)
+                         "wire_duplicates_presented", "adv_damaged_copy_first", "adv_forged_future_seq"], inconclusive)
     cov = {
         "evaluations": m["evaluations"],
         "distinct_nontrivial": m["distinct_nontrivial"],
